@@ -131,7 +131,8 @@ def run(ctx):
     ]
     return ctx.finish(
         rule="one case = one graph (all measures of graph/network and graph/spectral on it, on every applicable "
-             "container type and shortest-path source; or community.Q on all partitions x 3 resolutions of it); "
+             "container type and shortest-path source); for community.Q / QMultiplex one case = one evaluation "
+             "(graph or layer pair, container type, partition, resolution); "
              "non-trivial = the graph has at least one edge (Q: partition neither trivial nor singletons). "
              "R3: one trace = one Modularize run (all levels); one Q case = one level of one run.",
         exhaustive=True)
